@@ -23,7 +23,7 @@ from .common import Check, Err, Raw, cN, cbool, clist, cnat, copt, cpair, cstr, 
 from .tables import TableError
 
 IMPORTS = ("From Coq Require Import List NArith ZArith Bool.\n"
-           "From Verif Require Import Base.Val C01.Model_C01 C04.Model_C04 C04.Spec_C04.")
+           "From Verif Require Import Base.Val C01.Model_C01 C04.Model_C04 C04.Spec_C04 C04.Negate_C04.")
 ANCHORS = ["ebuild/atom.py::atom.restrictions", "ebuild/restricts.py", "restrictions/values.py::StrGlobMatch",
            "restrictions/values.py::StrExactMatch", "restrictions/values.py::ContainmentMatch.match",
            "restrictions/packages.py::PackageRestriction.match", "restrictions/boolean.py::AndRestriction.match"]
@@ -514,7 +514,7 @@ def main(chk: Check):
     r = None
     if pools:
         r = chk.coq_eval("match", IMPORTS + "\n" + pools, "atom * package", cases,
-                         ["mismatches run_amatch cases", "where_ spec_match_bad cases",
+                         ["mismatches run_amatch cases", "where_ spec_match_bad_nv cases",
                           "where_ in_known_glob cases", "where_ in_known_nand cases"], shard=500)
     prop_fail = bool(seen_alias)
     if r is not None:
